@@ -101,6 +101,14 @@ fn same_line_slots(f: &Expr) -> Vec<(&'static str, Vec<Stmt>)> {
             StrPart::Slot(Box::new(call(tprop(string("ключ"), "type"), vec![]))),
             StrPart::Slot(Box::new(f.clone())),
         ])))]),
+        ("slot holding braces before and after the fault", vec![sdmodel::ast::print(ex(EK::Interp(vec![
+            StrPart::Text("é ".chars().map(|c| (c, Spell::Raw)).collect()),
+            StrPart::Slot(Box::new(bin(Op::Sum, prop(paren(obj(vec![pair("k", string("v"))])), "k"), bin(Op::Sum, f.clone(), call(func(vec![], false, vec![ret(string("z"))]), vec![]))))),
+            StrPart::Text("!".chars().map(|c| (c, Spell::Raw)).collect()),
+        ])))]),
+        ("fault as a property value inside a slot", vec![sdmodel::ast::print(ex(EK::Interp(vec![
+            StrPart::Slot(Box::new(call(var("usr"), vec![prop(paren(obj(vec![pair("a", string("x")), pair("k", f.clone())])), "a"), string("y")]))),
+        ])))]),
         ("chain of three operators", vec![sdmodel::ast::print(bin(Op::Sum, bin(Op::Sum, int(1), int(2)), f.clone()))]),
         ("chain with the fault first", vec![sdmodel::ast::print(bin(Op::Sub, bin(Op::Sum, f.clone(), int(2)), int(3)))]),
         ("chain with the fault in the middle", vec![sdmodel::ast::print(bin(Op::Mul, bin(Op::Mul, bin(Op::Mul, int(2), f.clone()), int(3)), int(4)))]),
